@@ -51,7 +51,24 @@ class FsScenario(Scenario):
             "spelling": "abs",
         }
 
+    enum_first = False
+
+    def gen_enum_case(self, seed, idx):
+        """Thorough tier: all 1- and 2-operation histories over a tiny universe x {recursive, non-recursive} x
+        {normal, full emitter}, each under a seeded schedule, before the random histories."""
+        hs = fm.enum_histories()
+        pre, ops = hs[idx // 4]
+        cfg = random.Random(f"{seed}:cfg")
+        sched = draw_sched(cfg, line=cfg.random() < self.line_share, pct_k=1500, step_cap=400_000, horizon=3600, pct_share=0.15)
+        if sched.get("p_line", 0) > 0.05:
+            sched["p_line"] = 0.02
+        paced = all(o[0] == "drain" for o in ops[1::2]) and len(ops) != 2
+        return {"pre": [list(o) for o in pre], "ops": [list(o) for o in ops], "watch": {"recursive": idx % 2 == 0, "full": (idx // 2) % 2 == 1, "root_kind": cfg.choice(["str", "bytes"]), "spelling": "abs"},
+                "delay": 0.5, "faults": {"short_read": [cfg.choice([32, 64, 0])]} if cfg.random() < 0.3 else {}, "paced": paced, "sched": sched, "enumerated": True}
+
     def gen_case(self, seed, tier, idx):
+        if self.enum_first and tier == "thorough" and idx < 4 * len(fm.enum_histories()):
+            return self.gen_enum_case(seed, idx)
         rng = random.Random(f"{seed}:ops")
         cfg = random.Random(f"{seed}:cfg")
         frng = random.Random(f"{seed}:fault")
@@ -194,7 +211,8 @@ class FsScenario(Scenario):
             finally:
                 run.cleanup()
             sample = {"pre": case["pre"], "ops": case["ops"], "events": [e["shape"] for e in run.events[:40]]}
-            return v, {"sample": sample, "hist_key": key_of([case["pre"], case["ops"], case["watch"]]), "nontrivial": bool(res.get("nonascii"))}
+            return v, {"sample": sample, "hist_key": key_of([case["pre"], case["ops"], case["watch"]]), "nontrivial": bool(res.get("nonascii")),
+                       "extra": {"enumerated_short_history_runs": 1 if case.get("enumerated") else 0, "paced_runs": 1 if case.get("paced") else 0}}
 
         try:
             return self.simulate(case, sched_seed, trace, run.install, main, finish)
@@ -262,6 +280,7 @@ def generic_violations(prop, sim, verdict, res, run=None):
 
 class C01(FsScenario):
     prop = "C01"
+    enum_first = True
     design_ref = "DESIGN.md 3.1, 4/C01"
     rule = ("case = (pre-existing tree, operation history generated against a model tree under the directory pacing rule over names {a,b,c} depth<=3: create/write/chmod/"
             "unlink/mkdir/makedirs/rmdir/rmtree/rename+replace/move out/move in of files and trees/drain, watch flags recursive|non-recursive x normal|full emitter x str|bytes root, "
@@ -283,6 +302,7 @@ class C01(FsScenario):
 
 class C02(FsScenario):
     prop = "C02"
+    enum_first = True
     design_ref = "DESIGN.md 3.1, 4/C02"
     rule = C01.rule + "; after the history every directory of the real tree (and the sibling directory outside the root) receives a probe file"
     level_text = ("Same runs as C01 plus a probe phase at the simulator's quiescent point: a file created in every existing directory must be reported as FileCreatedEvent under its real "
@@ -305,6 +325,7 @@ class C02(FsScenario):
 
 class C03(FsScenario):
     prop = "C03"
+    enum_first = True
     design_ref = "DESIGN.md 3.1, 4/C03, Appendix A"
     rule = C01.rule + "; 60% of the runs drain after every operation (per-operation contract), the rest race (soundness only)"
     level_text = ("Soundness on every run: each delivered event must lie in the allowed set A(o) of an operation issued before its delivery (right paths, File/Dir flavour, synthetic only for "
